@@ -7,6 +7,7 @@ import (
 	"os"
 	"runtime/debug"
 	"strings"
+	"time"
 
 	"verif/mc"
 	"verif/props"
@@ -39,6 +40,19 @@ func main() {
 			fmt.Fprintln(os.Stderr, err)
 			os.Exit(2)
 		}
+		if v.Kind == "parfor" {
+			// a case identified by its position in the enumeration: run the property restricted to it
+			var pc mc.ParforCase
+			if err := json.Unmarshal(v.Case, &pc); err != nil {
+				fmt.Fprintln(os.Stderr, err)
+				os.Exit(2)
+			}
+			c := mc.NewCtx(id, "quick")
+			c.Replaying = true
+			mc.SetOnly(pc.Seq, pc.Index)
+			p.Run(c)
+			os.Exit(c.Finish())
+		}
 		r := p.Replay[v.Kind]
 		if r == nil {
 			fmt.Fprintln(os.Stderr, "no replayer for kind", v.Kind)
@@ -55,6 +69,21 @@ func main() {
 		os.Exit(2)
 	}
 	c := mc.NewCtx(id, mode)
+	if !mc.IsShardWorker() {
+		// last resort: an overall deadline (a changed library hanging in a part of a check that the
+		// per-evaluation watchdog does not see).  The run ends with what it has and is not exhaustive.
+		limit := 3600 * time.Second
+		if mode == "thorough" {
+			limit = 6 * 3600 * time.Second
+		}
+		if v, err := time.ParseDuration(os.Getenv("VERIF_MAX_RUN")); err == nil && v > 0 {
+			limit = v
+		}
+		time.AfterFunc(limit, func() {
+			c.NotExhaustive(fmt.Sprintf("overall deadline of %v reached; the run was ended with what it had covered", limit))
+			os.Exit(c.Finish())
+		})
+	}
 	if path := os.Getenv("VERIF_PARTIAL"); mc.IsShardWorker() && path != "" {
 		// shard worker: run, export, leave the verdict to the parent
 		p.Run(c)
@@ -79,9 +108,22 @@ func main() {
 			case strings.Contains(d.Output, "stack overflow") || strings.Contains(d.Output, "goroutine stack exceeds"):
 				class = "unbounded-recursion"
 			}
-			if p.Lookup == nil || d.Seq == 0 {
+			if strings.Contains(d.Output, "VERIF-HANG") {
+				class = "evaluation-does-not-terminate"
+			}
+			if d.Seq == 0 {
 				fmt.Fprintf(os.Stderr, "harness error: shard %d failed and cannot be attributed:\n%s\n", d.Shard, d.Output)
 				os.Exit(2)
+			}
+			if p.Lookup == nil {
+				// no family-specific lookup: the case is identified by its position in the enumeration
+				out := d.Output
+				if len(out) > 300 {
+					out = out[len(out)-300:]
+				}
+				c.NotExhaustive(fmt.Sprintf("shard %d ended at index %d of enumeration call %d; the rest of its share was not run", d.Shard, d.Index, d.Seq))
+				c.Violate(class, "parfor", mc.ParforCase{Seq: d.Seq, Index: d.Index}, "the worker process ended while running this case: "+out)
+				continue
 			}
 			fam, cas := p.Lookup(mc.NewCtx(id, mode), d.Seq, d.Index)
 			out := d.Output
